@@ -12,11 +12,14 @@
     - on the class of C18, end to end (section at the end of this file): returned edges whose source edges are
       farther than one pixel apart do not meet ([C01_partial_far_edges_do_not_meet]); two steps of one routed chain
       do not cross ([C01_partial_same_chain_no_cross]);
-    NOT proved: the global implication "valid input and every output edge is a routed edge => no proper
-    crossing" (the Guibas-Marimont deformation argument: move every point towards the centre of its pixel
-    and show that no vertex ever passes through an edge; the sweep lemma is its algebraic step, the
-    topological continuity / planarity part is missing).  Everything named [C01_partial_*] is a step of
-    that argument, not the property.
+    - PROVED ON THE CLASS OF C18 (no routed-and-cleaned ring visits a pixel centre at three positions), where
+      every returned edge is a routed step: [C01_routed_steps_do_not_cross] (valid polygon => no two routed steps
+      cross properly: the Guibas-Marimont deformation argument — move every point towards the centre of its
+      pixel; a crossing needs a first contact; at a contact the sweep lemma and the travel order force a shared end
+      point) and [C01_on_class] (no two edges of the returned geometry of a level cross), last section of this
+      file.  These two depend on the standard library's axioms for the real numbers (the contact time is
+      irrational in general); everything else in the development is axiom free.
+    Beyond the class the property is false (F5).  Theorems named [C01_partial_*] are steps of the argument.
 
     Vocabulary (Geom/*.v, Snap/ProofsGeomTie*.v).  Points are integer pairs (units of 1e-10).
     - [orient3 a b c]: twice the signed area of the triangle (Snap.Model's [orient] is the winding of a ring);
@@ -299,13 +302,7 @@ Theorem C01_partial_no_vertex_inside_edge_on_class : forall g P levels cfg res h
 Proof. exact no_vertex_inside_edge_on_class. Qed.
 Print Assumptions C01_partial_no_vertex_inside_edge_on_class.
 
-(** C01 ITSELF ON THE CLASS IS NOT PROVED.  What is missing is the continuity half of the deformation argument: two
-    segments whose end points move linearly, disjoint at time 0 and crossing properly at time 1, have a time at which
-    an end point of one lies on the other.  That time is in general irrational (a root of a quadratic), so this needs
-    the reals; the sweep lemma then has to be used at a real time, and a real parameter of "the segment is inside the
-    pixel" turned back into a rational one.  A zero of the obvious continuous witness (the minimum of the four
-    products that characterise a proper crossing) can also be a moment at which the segments are merely parallel, so
-    the LAST such time has to be taken and the parallel case treated by a limit argument on projections. *)
+(** (the continuity half is proved further down: section C01 ON THE CLASS) *)
 
 (** non-vacuity for P3: the hypotheses hold for the neck polygon at the levels 5, 3, 2 (all > 0; see
     [C01_partial_far_edges_example] for the class); in the level-3 result every vertex that lies on a closed edge
@@ -326,3 +323,66 @@ Proof.
   { intros L HL. cbn [In] in HL. destruct HL as [<- | [<- | [<- | []]]]; cbn [gdeep c01G]; split; repeat constructor. }
   vm_compute. repeat split; reflexivity.
 Qed.
+
+
+(** * C01 ON THE CLASS OF C18 — the deformation argument completed.
+
+    Geom/DeformR.v (real analysis): two segments whose end points move linearly, crossing properly at time 1 and not
+    at time 0, have a time at which an end point of one lies on the other ([first_contact]).
+    Snap/ProofsSweepR.v: the sweep lemma at a real time, and a real parameter inside a pixel turned into a rational one.
+    Snap/ProofsJoinC01c.v, d, e: fragments of the two polygon edges between consecutive pixels move to the steps of
+    their chains; at a contact the other edge passes through the (hot) pixel of the contact point between two
+    consecutive pixels of its chain, so that pixel is one of the two and the steps share an end point.
+
+    THESE THREE THEOREMS DEPEND ON THE AXIOMS OF THE STANDARD LIBRARY'S REAL NUMBERS (and on nothing else):
+      ClassicalDedekindReals.sig_forall_dec, ClassicalDedekindReals.sig_not_dec,
+      FunctionalExtensionality.functional_extensionality_dep
+    because the first contact time is in general irrational.  No other theorem of this development depends on them.
+    [ExactMiddle g L]: the pixel centre is the exact middle (level above the deepest, or even resolution).
+    Beyond the class the statement is false: [C01_refuted] (F5). *)
+From Texel Require Import Snap.ProofsJoinC01c Snap.ProofsJoinC01d Snap.ProofsJoinC01e.
+
+(** a valid polygon: any two edges are the same edge or touch at most at a common end point *)
+Theorem C01_valid_polygon_edges_separated : forall P, valid_polygon P ->
+  forall r1 r2 a b c d, In r1 P -> In r2 P -> In (a, b) (dedges r1) -> In (c, d) (dedges r2) ->
+    (a, b) = (c, d) \/ (a, b) = (d, c) \/
+    (forall x y : Q, (0 <= x -> x <= 1 -> 0 <= y -> y <= 1 ->
+       co (fst a) (fst b) x == co (fst c) (fst d) y -> co (snd a) (snd b) x == co (snd c) (snd d) y ->
+       (x == 0 \/ x == 1) /\ (y == 0 \/ y == 1))%Q).
+Proof. exact valid_polygon_edges_separated. Qed.
+Print Assumptions C01_valid_polygon_edges_separated.
+
+(** routed steps: for a valid polygon inside the grid, any level within the index with exact pixel middles, no two
+    steps (pairs of consecutive centres of the lists snapClosestPoints returns for edges of the normalised rings, in
+    either direction) cross properly *)
+Theorem C01_routed_steps_do_not_cross : forall g P hs L e f, 0 < gres g -> RootCovers g ->
+  insertPolygon g P = Ok hs -> (L <= gdeep g)%nat -> ExactMiddle g L -> valid_polygon P ->
+  routed_step g (hotLevels g hs) L P e -> routed_step g (hotLevels g hs) L P f ->
+  ~ proper_cross (fst e) (snd e) (fst f) (snd f).
+Proof.
+  intros g P hs L e f Hr C Hi HL Ex V. exact (routed_steps_do_not_cross g P hs L e f Hr C Hi HL Ex (valid_polygon_edges_separated P V)).
+Qed.
+Print Assumptions C01_routed_steps_do_not_cross.
+
+(** C01 ON THE CLASS: a valid polygon inside the grid; at every requested level every routed-and-cleaned ring visits
+    no pixel centre at three positions.  Then no two edges of the geometry returned for a level cross properly. *)
+Theorem C01_on_class : forall g P levels cfg res hs, 0 < gres g -> RootCovers g ->
+  (forall L, In L levels -> (L <= gdeep g)%nat) -> insertPolygon g P = Ok hs ->
+  (forall L idx r c, In L levels -> nth_error P idx = Some r ->
+     routedClean g (hotLevels g hs) L idx r = Ok c -> ProofsKmpLe2.le2 c) ->
+  valid_polygon P -> snapPolygon g P levels cfg = Ok res ->
+  forall L ps e f, In (L, ps) res -> ExactMiddle g L -> In e (edges ps) -> In f (edges ps) -> ~ edge_cross e f.
+Proof.
+  intros g P levels cfg res hs Hr C HLs Hi Hcl V.
+  exact (no_crossing_on_class g P levels cfg res hs Hr C HLs Hi Hcl (valid_polygon_edges_separated P V)).
+Qed.
+Print Assumptions C01_on_class.
+
+(** non-vacuity: the neck polygon is valid (exact oracle), the other hypotheses are those of
+    [C01_partial_far_edges_example]; in the level-3 result no two edges cross (exact oracle) *)
+Example C01_on_class_example :
+  valid_polygon c01Neck /\
+  forallb (fun e => forallb (fun f => negb (edge_cross_b e f))
+     (edges [[[(4,4);(20,4);(20,28);(20,60);(4,60)]]; [[(44,28);(44,4);(60,4);(60,60);(44,60)]]; [[(20,28);(44,28)]]]))
+     (edges [[[(4,4);(20,4);(20,28);(20,60);(4,60)]]; [[(44,28);(44,4);(60,4);(60,60);(44,60)]]; [[(20,28);(44,28)]]]) = true.
+Proof. split; [apply valid_polygon_b_sound; vm_compute; reflexivity | vm_compute; reflexivity]. Qed.
